@@ -85,6 +85,13 @@ pub struct Gen<'a, 'b> {
 }
 
 impl<'a, 'b> Gen<'a, 'b> {
+    /// 1-8 letters over {a, b, c} or {c, o, u, n, t, s, d}
+    fn word(&mut self) -> String {
+        let alpha: &[char] = if self.s.bool() { &['a', 'b', 'c'] } else { &['c', 'o', 'u', 'n', 't', 's', 'd'] };
+        let n = 1 + self.s.below(8);
+        (0..n).map(|_| self.s.char_from(alpha)).collect()
+    }
+
     fn gen_prefix(&mut self) -> Option<String> {
         if self.s.chance(110) {
             Some(self.s.pick(PREFIXES).to_string())
@@ -102,9 +109,33 @@ impl<'a, 'b> Gen<'a, 'b> {
             if many && self.s.chance(190) {
                 // mostly distinct qualified names; aliased prefixes make expanded-name duplicates
                 let prefix = if self.s.chance(200) { Some(self.s.pick(&["a", "b", "p", "c"]).to_string()) } else { None };
-                let local = format!("f{}", self.s.below(14));
+                let local = if self.s.chance(128) { format!("f{}", self.s.below(14)) } else { self.word() };
                 attrs.push(SrcAttr { prefix, local, value: self.s.pick(VALUES).to_string() });
                 continue;
+            }
+            if self.s.chance(24) {
+                // a word over a tiny alphabet: many different names that are permutations / near
+                // copies of each other (anything that hashes, folds or abbreviates names)
+                let prefix = self.gen_prefix();
+                let local = self.word();
+                // (a declaration-shaped name gets a literal URI value, see below)
+                let decl_shaped = prefix.as_deref() == Some("xmlns");
+                let value = if decl_shaped { self.s.pick(URIS).to_string() } else { self.s.pick(VALUES).to_string() };
+                attrs.push(SrcAttr { prefix, local, value });
+                continue;
+            }
+            if self.s.chance(16) && !attrs.is_empty() {
+                // the spelling of an earlier qualified name with the colon replaced: an
+                // unprefixed name that merely looks like prefix:local
+                let k = self.s.below(attrs.len());
+                if let Some(p) = attrs[k].prefix.clone() {
+                    let sep = *self.s.pick(&["-", "_", ".", "", "::"]);
+                    let local = format!("{p}{sep}{}", attrs[k].local);
+                    if !local.contains(':') {
+                        attrs.push(SrcAttr { prefix: None, local, value: self.s.pick(VALUES).to_string() });
+                        continue;
+                    }
+                }
             }
             match self.s.below(10) {
                 0 | 1 => {
